@@ -258,6 +258,14 @@ func runE2E(op string, rep *hx.Report) string {
 		return "skip " + err.Error()
 	}
 	hello := snix.ClientHello("a.test")
+	if hl, _ := strconv.Atoi(kvGet(ws, "hello")); hl > 0 {
+		if p, ok := snix.PadHello(hello, hl); ok {
+			hello = p
+		}
+	}
+	if par, _ := strconv.Atoi(kvGet(ws, "par")); par > 1 {
+		return runParallel(op, rep, rig, ep, hello, mode, par, up, down, seed)
+	}
 	upData := append(append([]byte{}, hello...), r.Bytes(up)...)
 	downData := r.Bytes(down)
 	fail := func(key, desc string) { rep.Fail(key+":"+mode, desc, []string{op}) }
@@ -371,7 +379,13 @@ func runE2E(op string, rep *hx.Report) string {
 	} else if len(clGot) < len(downData) {
 		fail("down-stream-incomplete", fmt.Sprintf("both ends open, but the client received only %d of %d bytes within 20 s", len(clGot), len(downData)))
 	}
-	got := <-appGot
+	var got []byte
+	select {
+	case got = <-appGot:
+	case <-time.After(30 * time.Second):
+		fail("up-stream-incomplete", fmt.Sprintf("the application never received the connection (ClientHello record of %d bytes, %d payload bytes) within 30 s", len(hello), up))
+		return "never-accepted"
+	}
 	select {
 	case <-accepted:
 	default:
@@ -401,6 +415,132 @@ func runE2E(op string, rep *hx.Report) string {
 	}
 	hx.WithTimeout(10*time.Second, wg.Wait)
 	return fmt.Sprintf("ok up=%d down=%d", len(got), len(clGot))
+}
+
+// runParallel drives `par` front connections at once through one endpoint, each with its own
+// payloads in both directions; every application-side connection learns which client it serves
+// from an index byte that follows the ClientHello.
+func runParallel(op string, rep *hx.Report, rig *snix.Rig, ep *sniproxy.Endpoint, hello []byte, mode string, par, up, down int, seed uint64) string {
+	fail := func(key, desc string) { rep.Fail(key+":"+mode, desc, []string{op}) }
+	ups := make([][]byte, par)
+	downs := make([][]byte, par)
+	for i := 0; i < par; i++ {
+		rr := hx.NewRand(seed*131 + uint64(i))
+		ups[i] = rr.Bytes(up)
+		downs[i] = rr.Bytes(down)
+	}
+	var appWg sync.WaitGroup
+	go func() {
+		for {
+			c, err := ep.Accept()
+			if err != nil {
+				return
+			}
+			appWg.Add(1)
+			go func() {
+				defer appWg.Done()
+				defer c.Close()
+				c.SetDeadline(time.Now().Add(40 * time.Second))
+				hb := make([]byte, len(hello)+1)
+				if _, err := io.ReadFull(c, hb); err != nil {
+					fail("up-stream-incomplete", "application could not read the ClientHello of a parallel connection: "+err.Error())
+					return
+				}
+				if !bytes.Equal(hb[:len(hello)], hello) {
+					fail("up-stream-altered", fmt.Sprintf("a parallel connection's ClientHello arrived altered (difference at %d)", firstDiff(hb[:len(hello)], hello)))
+					return
+				}
+				i := int(hb[len(hello)])
+				if i >= par {
+					fail("up-stream-altered", "index byte after the ClientHello is not one a client sent")
+					return
+				}
+				done := make(chan struct{})
+				go func() {
+					defer close(done)
+					d := downs[i]
+					rr := hx.NewRand(seed + uint64(i) + 7)
+					for len(d) > 0 {
+						n := 1 + rr.Intn(40000)
+						if n > len(d) {
+							n = len(d)
+						}
+						if _, err := c.Write(d[:n]); err != nil {
+							return
+						}
+						d = d[n:]
+					}
+				}()
+				got := make([]byte, 0, len(ups[i]))
+				buf := make([]byte, 32768)
+				for len(got) < len(ups[i]) {
+					n, err := c.Read(buf)
+					got = append(got, buf[:n]...)
+					if !bytes.HasPrefix(ups[i], got) {
+						fail("up-stream-altered", fmt.Sprintf("with %d connections in parallel, the application of connection %d read bytes that are not what its client wrote (difference at %d of %d)", par, i, firstDiff(got, ups[i]), len(ups[i])))
+						return
+					}
+					if err != nil {
+						break
+					}
+				}
+				if len(got) < len(ups[i]) {
+					fail("up-stream-incomplete", fmt.Sprintf("with %d connections in parallel, connection %d delivered only %d of %d bytes upstream", par, i, len(got), len(ups[i])))
+				}
+				<-done
+				// keep the connection open until the client has everything and closes
+				io.Copy(io.Discard, c)
+			}()
+		}
+	}()
+	var wg sync.WaitGroup
+	for i := 0; i < par; i++ {
+		wg.Add(1)
+		go func(i int) {
+			defer wg.Done()
+			cl, err := net.Dial("tcp", rig.Lis.Addr().String())
+			if err != nil {
+				return
+			}
+			defer cl.Close()
+			cl.SetDeadline(time.Now().Add(40 * time.Second))
+			go func() {
+				cl.Write(hello)
+				cl.Write([]byte{byte(i)})
+				d := ups[i]
+				rr := hx.NewRand(seed + uint64(i) + 11)
+				for len(d) > 0 {
+					n := 1 + rr.Intn(40000)
+					if n > len(d) {
+						n = len(d)
+					}
+					if _, err := cl.Write(d[:n]); err != nil {
+						return
+					}
+					d = d[n:]
+				}
+			}()
+			got := make([]byte, 0, len(downs[i]))
+			buf := make([]byte, 32768)
+			for len(got) < len(downs[i]) {
+				n, err := cl.Read(buf)
+				got = append(got, buf[:n]...)
+				if !bytes.HasPrefix(downs[i], got) {
+					fail("down-stream-altered", fmt.Sprintf("with %d connections in parallel, client %d read bytes that are not what its application wrote (difference at %d of %d)", par, i, firstDiff(got, downs[i]), len(downs[i])))
+					return
+				}
+				if err != nil {
+					break
+				}
+			}
+			if len(got) < len(downs[i]) {
+				fail("down-stream-incomplete", fmt.Sprintf("with %d connections in parallel, client %d received only %d of %d bytes", par, i, len(got), len(downs[i])))
+			}
+		}(i)
+	}
+	hx.WithTimeout(60*time.Second, wg.Wait)
+	hx.WithTimeout(20*time.Second, appWg.Wait)
+	return fmt.Sprintf("ok par=%d", par)
 }
 
 func main() {
@@ -485,6 +625,14 @@ func main() {
 				up, down = 1<<20, 1<<20
 			}
 			ops = append(ops, fmt.Sprintf("e2e mode=%s up=%d down=%d seed=%d close=%s", mode, up, down, r.U64()%100000, hx.Pick(r, []string{"client", "app"})))
+		}
+		// several bulk connections at once through one endpoint (buffers shared between sessions would show here)
+		for i, mode := range []string{"legacy", "siding", "siding-addr", "legacy"} {
+			ops = append(ops, fmt.Sprintf("e2e mode=%s up=%d down=%d seed=%d close=client par=%d", mode, 200000+i, 300000+i, r.U64()%100000, 4+2*i))
+		}
+		// ClientHellos padded up to the record limit: the peeked hello must still reach the application whole
+		for i, hl := range []int{4091, 4092, 16379, 16380, 16384} {
+			ops = append(ops, fmt.Sprintf("e2e mode=%s up=%d down=%d seed=%d close=client hello=%d", []string{"legacy", "siding", "siding-addr"}[i%3], 1000, 1000, r.U64()%100000, hl))
 		}
 	}
 	var stageOps, stageImpl []string
